@@ -244,7 +244,7 @@ def strategies():
 
     @st.composite
     def base_url(draw, codec):
-        mode = draw(st.sampled_from([0, 0, 0, 0, 0, 6, 7, 7, 7, 8, 9]))
+        mode = draw(st.sampled_from([0, 0, 0, 0, 0, 6, 6, 7, 7, 7, 8, 9]))
         if mode <= 5:
             case = draw(mk(codec))
             try:
@@ -258,12 +258,41 @@ def strategies():
                                      "https://puzz.link/q?", ""]))
         w, h = draw(dim), draw(dim)
         if mode == 6:
-            # large board, all-zero / constant body of roughly the right length
-            w = draw(st.sampled_from(["30", "40", "50", "64"]))
-            h = draw(st.sampled_from(["30", "40", "50", "64"]))
-            n = int(w) * int(h)
-            ch = draw(st.sampled_from(["0", "0", "v", "g", "z", "1"]))
-            blen = draw(st.sampled_from([n // 5 * 2 + 30, n, n // 3 + 2, n // 20 + 1]))
+            # large board, all-zero / constant body of roughly the right length; also very tall or very wide
+            # boards of 1-3 columns / rows, and one room that snakes through the whole board
+            shape = draw(st.sampled_from(["square", "square", "thin", "thin", "snake"]))
+            if shape == "thin":
+                w = draw(st.sampled_from(["1", "2", "3"]))
+                h = draw(st.sampled_from(["400", "1200", "2500"]))
+                if draw(st.booleans()):
+                    w, h = h, w
+            elif shape == "snake":
+                w = draw(st.sampled_from(["20", "50"]))
+                h = draw(st.sampled_from(["20", "50"]))
+            else:
+                w = draw(st.sampled_from(["30", "40", "50", "64"]))
+                h = draw(st.sampled_from(["30", "40", "50", "64"]))
+            if shape != "square" and draw(st.integers(0, 3)) > 0:
+                name = draw(st.sampled_from(["lits", "norinori", "heyawake"]))   # the codecs with a Rooms part
+            W_, H_ = int(w), int(h)
+            n = W_ * H_
+            rooms_len = ((W_ - 1) * H_ + 4) // 5 + (W_ * (H_ - 1) + 4) // 5
+            if shape == "snake":
+                vertical = draw(st.booleans())
+                bits = []
+                for y in range(H_):          # borders between (y, x) and (y, x + 1)
+                    for x in range(W_ - 1):
+                        bits.append(1 if vertical and y != (H_ - 1 if x % 2 == 0 else 0) else 0)
+                bits += [0] * (-len(bits) % 5)
+                for y in range(H_ - 1):      # borders between (y, x) and (y + 1, x)
+                    for x in range(W_):
+                        bits.append(1 if not vertical and x != (W_ - 1 if y % 2 == 0 else 0) else 0)
+                bits += [0] * (-len(bits) % 5)
+                body_ = "".join("0123456789abcdefghijklmnopqrstuv"[int("".join(map(str, bits[i:i + 5])), 2)]
+                                for i in range(0, len(bits), 5))
+                return "%s%s/%s/%s/%s" % (host or "https://puzz.link/p?", name, w, h, body_)
+            ch = draw(st.sampled_from(["0", "0", "v", "g", "z", "1"] if shape == "square" else ["0", "0", "0", "0", "v", "1"]))
+            blen = draw(st.sampled_from([n // 5 * 2 + 30, n, n // 3 + 2, n // 20 + 1, rooms_len, rooms_len]))
             return "%s%s/%s/%s/%s" % (host or "https://puzz.link/p?", name, w, h, ch * blen)
         if mode == 7:
             # well-formed header with small (possibly zero) dimensions and a body made of the codec's tokens
